@@ -229,6 +229,9 @@ struct Harness
         a_str *s = L.s;
         std::string &m = L.m;
         std::string before = m;
+        // the explored state abstracts from the byte after the content; a refused formatted append is judged on the concretisation every
+        // terminating operation produces (a NUL there)
+        if (o.code == S_CATF && o.a == 6 && s->ptr_ && s->num_ < s->mem_) { s->ptr_[s->num_] = 0; }
         bool was_term = is_term(s), refused = false;
         probe = false;
         outcome = "ok";
